@@ -28,7 +28,12 @@ type c19PECase struct {
 	PD       int       `json:"pd"`
 	Envelope int       `json:"envelope"` // 0 JSON-LD VP object, 1 array of VPs, 2 JWT VP string, 3 array with JWT + JSON-LD
 	Plan     c19x.Plan `json:"plan"`
+	Redos    bool      `json:"redos,omitempty"` // the (remote verifier's) definition carries a pattern with catastrophic backtracking for the wallet's credential values
 }
+
+// c19PERedosDefinition: `^([a-z:.]+)+\d$` against the credential's issuer / subject id (30 characters of [a-z:.], no digit at
+// the end) needs about 2^29 backtracking steps in a backtracking engine.
+var c19PERedosDefinition = []byte(`{"id":"redos","input_descriptors":[{"id":"1","constraints":{"fields":[{"path":["$.issuer"],"filter":{"type":"string","pattern":"^([a-z:.]+)+\\d$"}}]}}]}`)
 
 var c19PEFiles = []string{"vcr/pe/test/pd_jsonld.json", "vcr/pe/test/pd_jwt.json", "vcr/pe/test/pd_jsonld_jwt.json", "vcr/pe/test/pd_jsonld_jwt_pick.json"}
 
@@ -76,6 +81,7 @@ func c19PEGen(t *rapid.T) c19PECase {
 		PD:       rapid.IntRange(0, len(c19PEFiles)+2).Draw(t, "pd"), // files, then the 3 inline definitions
 		Envelope: rapid.IntRange(0, 3).Draw(t, "envelope"),
 		Plan:     c19x.GenPlan(t, c19PEKeys),
+		Redos:    rapid.IntRange(0, 99).Draw(t, "redos") == 57, // (rapid favours the bounds of a range: an interior value is drawn in well under 1% of the cases)
 	}
 }
 
@@ -167,6 +173,10 @@ func c19PERun(x *h.Ctx, c c19PECase) {
 		envRaw = c19PEEnvelopeSeed(envKind)
 		// a valid submission for the valid definition
 		pd, err := ParsePresentationDefinition(pdRaw)
+		if c.Redos {
+			pdRaw = c19PERedosDefinition // (the submission stays the one for the valid definition)
+			x.Class("definition=catastrophic-pattern")
+		}
 		x.NoErr(err, "parse definition fixture")
 		b := pd.PresentationSubmissionBuilder()
 		b.AddWallet(did.MustParseDID(c19PEHolder), creds)
@@ -187,7 +197,9 @@ func c19PERun(x *h.Ctx, c c19PECase) {
 	var ap c19x.Applied
 	switch c.What {
 	case "definition":
-		pdRaw, ap = c.Plan.Apply(pdRaw)
+		if !c.Redos {
+			pdRaw, ap = c.Plan.Apply(pdRaw)
+		}
 	case "submission":
 		subRaw, ap = c.Plan.Apply(subRaw)
 	case "jwt-vp-claims", "jwt-vp-header", "jwt-vc-claims":
@@ -232,6 +244,12 @@ func c19PERun(x *h.Ctx, c c19PECase) {
 			return
 		}
 		_ = pd.CredentialsRequired()
+		if c.Redos {
+			// one credential, one evaluation: with a match timeout in place every evaluation of this pattern costs that timeout
+			_, _, merr := pd.Match(creds[:1])
+			x.Classf("catastrophic-pattern:match-error=%v", merr != nil)
+			return
+		}
 		matched, mappings, merr := pd.Match(creds)
 		if merr == nil {
 			x.Classf("definition:matched-%d", min(len(matched), 3))
